@@ -183,7 +183,7 @@ def roundtrip(tree, ci, es5):
     ref_c = ref_err = None
     if es5:
         _, ref_c, ref_err = printing.ref_canon(out)
-    return out, c2, seq2, err2, ref_c, ref_err
+    return out, c2, seq2, err2, ref_c, ref_err, t2
 
 
 def evaluate(ctx, text, count=True):
@@ -219,9 +219,9 @@ def evaluate(ctx, text, count=True):
     holders = {}
     for path, node, cs in comments_of(t1):
         for c in cs:
-            holders.setdefault(c.value, vtree.kind_of(node))
+            holders.setdefault(c.value, []).append(vtree.kind_of(node))
     try:
-        out, c2, seq2, err2, ref_c, ref_err2 = roundtrip(t1, c1, es5)
+        out, c2, seq2, err2, ref_c, ref_err2, t2 = roundtrip(t1, c1, es5)
     except RecursionError:
         return viol, n, None
     if count:
@@ -230,7 +230,14 @@ def evaluate(ctx, text, count=True):
     if v:
         mech = v[0]
         if mech == 'C13:comment_sequence_changed' and seq2 is not None:
-            lost = [x for x in seq if x not in seq2]
+            # (multiset difference: two comments may have the same text)
+            left = list(seq2)
+            lost = []
+            for x in seq:
+                if x in left:
+                    left.remove(x)
+                else:
+                    lost.append(x)
             if lost:
                 # where did the printer put the comment that the next parse did not capture?
                 # (the comment's text may also occur inside a string or regex of the output: take the
@@ -253,7 +260,18 @@ def evaluate(ctx, text, count=True):
                 if '/' in nxt:
                     mech += ':lost_before_regex'
                 else:
-                    mech += ':lost_from_' + holders.get(lost[0], '?')
+                    # the holder of the lost occurrence: the kinds holding that text which the re-parsed
+                    # tree no longer has one of
+                    kinds = holders.get(lost[0], ['?'])
+                    kind = kinds[0]
+                    if len(set(kinds)) > 1 and t2 is not None:
+                        h2 = [vtree.kind_of(n) for p_, n, cs in comments_of(t2) for c in cs if c.value == lost[0]]
+                        rest = list(kinds)
+                        for k in h2:
+                            if k in rest:
+                                rest.remove(k)
+                        kind = rest[0] if rest else kinds[0]
+                    mech += ':lost_from_' + kind
             elif sorted(seq) == sorted(seq2):
                 mech += ':reordered'
             else:
